@@ -169,4 +169,29 @@ def check_all(tier, name):
                 add(f"C08:{label.split('[')[0]}:refresh-law",
                     f"{label}: after {hist} the momentum is {None if st.mom is None else np.round(st.mom, 6).tolist()} but "
                     f"{a}*p0 + sum b_i L z_i with b = {b} is {np.round(want, 6).tolist()} (Gaussian law not preserved)", rp)
+    # ---- the metric of a Euclidean-metric system is reassigned (as the metric adapters do): momenta
+    #      drawn afterwards must follow the NEW metric, whatever was drawn before ----
+    import mici.systems as S
+    zoo3 = matzoo.pos_def_metrics(3)
+    model = zoo.Model(3)
+    for cls in (S.EuclideanMetricSystem, S.GaussianEuclideanMetricSystem):
+        for first, second in (("dense", "diag"), ("diag", "dense.inv"), ("tri-lower", "eig"), ("identity", "lowrank-")):
+            system = cls(model.neg_log_dens, metric=zoo3[first][0], grad_neg_log_dens=model.grad_neg_log_dens)
+            base = ChainState(pos=np.array([0.3, -0.2, 0.5]), mom=None, dir=1)
+            st = ChainState(pos=np.array([0.3, -0.2, 0.5]), mom=None, dir=1)
+            IndependentMomentumTransition(system).sample(st, ScriptRng([rs.standard_normal(3)]))   # a draw under the first metric
+            system.metric = matzoo.pos_def_metrics(3)[second][0]
+            cols = []
+            for i in range(3):
+                e = np.zeros(3)
+                e[i] = 1.0
+                st2, _ = CorrelatedMomentumTransition(system, 1.0).sample(st, ScriptRng([e]))
+                cols.append(np.array(st2.mom))
+            Lm = np.array(cols).T
+            runs += 3
+            if not np.allclose(Lm @ Lm.T, zoo3[second][1], rtol=1e-9, atol=1e-10):
+                add(f"C08:{cls.__name__}:stale-factor-after-metric-change",
+                    f"{cls.__name__}: after a draw under metric '{first}' and reassigning system.metric to '{second}', fresh momenta have "
+                    f"covariance {np.round(Lm @ Lm.T, 6).tolist()} instead of the new metric {np.round(zoo3[second][1], 6).tolist()}",
+                    {"engine": "momentum", "label": f"{cls.__name__}:{first}->{second}"})
     return {"leaves": leaves, "res": res, "viol": viol, "drift": drift, "runs": runs, "cases": [c[0] for c in cases]}
